@@ -1,4 +1,4 @@
 ---------------------------- MODULE LayersGen ----------------------------
 EXTENDS Layers, Json
-Emit == PrintT(<<"LAY", ToJson([kind |-> kind, defs |-> defs, ord |-> ord, mode |-> mode, expect |-> Resolve, later |-> ResolveLater, top |-> Top])>>)
+Emit == PrintT(<<"LAY", ToJson([kind |-> kind, defs |-> defs, ord |-> ord, mode |-> mode, expect |-> Resolve, later |-> ResolveLater, top |-> Top, empty |-> EmptyLevel])>>)
 ==========================================================================
